@@ -20,13 +20,14 @@ RULE = (
     "Hypothesis builds a blueprint (<= 6/10 nodes) and 1-3 signature-neutral edits (explicit default, "
     "optional None, Meta/Option/Path value, meta-flagged sub-configuration inserted in lists/dicts or "
     "changed inside, tags, tagged values, token dependencies), a class variant (same type identifier plus "
-    "defaulted/Meta/generated/optional parameters) and submission settings (launcher, workspace, run "
+    "defaulted/Meta/generated/optional parameters, defaults written with a coercible literal, generated values "
+    "that are not paths, defaults that are configurations - plain or holding a generated path) and submission settings (launcher, workspace, run "
     "mode); non-trivial = at least one edit applied that changed stored state at a node with a parent or "
     "inside a container, or a class variant in use; distinct = canonical JSON of the case."
 )
 ASSUMPTIONS = [
     "an Optional with a non-None default explicitly set to None is not treated as neutral",
-    "defaults that are configuration objects are not generated",
+    "defaults that are configuration objects appear through class variants (extra parameters xcl, xca, xcm)",
     "the reference signature (vlib/blueprint.py) decides which nodes an edit leaves unchanged",
 ]
 MIN_CLASSES = {
@@ -167,6 +168,18 @@ def prop(ctx, case):
             what = kinds if applied else "+".join(k for k, v in case["submit"].items() if v) or "none"
             if classes:
                 what += "+class-variant"
+                if "xcm" in case["classvar"]["extras"]:
+                    # known shape: the added parameter's default is a configuration whose class declares
+                    # Meta[Path] = field(default_factory=PathGenerator(...)); the sealed copy holds the
+                    # generated path, the declared default holds None: they no longer compare equal.
+                    # Root cause confirmed by building the same case without that one extra parameter
+                    rest = [x for x in case["classvar"]["extras"] if x != "xcm"]
+                    classes3 = dict(universe.CLASSES)
+                    if rest:
+                        classes3[case["classvar"]["cls"]] = dyn.variant(case["classvar"]["cls"], rest)
+                    B3 = bpl.build_checked(ctx, bp2, "without the configuration-valued default", classes=classes3, submit_kwargs=kw)
+                    if B3 is not None and bpl.identifiers(ctx, B3, "without the configuration-valued default")[i] == id1[i]:
+                        what = "class-variant:configuration-default-with-meta-generated-path"
             marked = {c for _, c in rs1.marks}
             if case["submit"]["generate"] and marked and (bpl.reachable(bp, bpl.effective_args(bp), [i]) & marked):
                 # known shape: a task returning one of its own parameters (dep(self.cfg)); writing the
